@@ -9,9 +9,9 @@ namespace glm
 	)
 	{
 		vec<3, T, Q> result;
-		result.x/*Y */ =   rgbColor.r / T(4) + rgbColor.g / T(2) + rgbColor.b / T(4);
-		result.y/*Co*/ =   rgbColor.r / T(2) + rgbColor.g * T(0) - rgbColor.b / T(2);
-		result.z/*Cg*/ = - rgbColor.r / T(4) + rgbColor.g / T(2) - rgbColor.b / T(4);
+		result.x/*Y */ =   rgbColor.x / T(4) + rgbColor.y / T(2) + rgbColor.z / T(4);
+		result.y/*Co*/ =   rgbColor.x / T(2) + rgbColor.y * T(0) - rgbColor.z / T(2);
+		result.z/*Cg*/ = - rgbColor.x / T(4) + rgbColor.y / T(2) - rgbColor.z / T(4);
 		return result;
 	}
 
@@ -22,9 +22,9 @@ namespace glm
 	)
 	{
 		vec<3, T, Q> result;
-		result.r = YCoCgColor.x + YCoCgColor.y - YCoCgColor.z;
-		result.g = YCoCgColor.x				   + YCoCgColor.z;
-		result.b = YCoCgColor.x - YCoCgColor.y - YCoCgColor.z;
+		result.x = YCoCgColor.x + YCoCgColor.y - YCoCgColor.z;
+		result.y = YCoCgColor.x				   + YCoCgColor.z;
+		result.z = YCoCgColor.x - YCoCgColor.y - YCoCgColor.z;
 		return result;
 	}
 
@@ -37,9 +37,9 @@ namespace glm
 		)
 		{
 			vec<3, T, Q> result;
-			result.x/*Y */ = rgbColor.g * static_cast<T>(0.5) + (rgbColor.r + rgbColor.b) * static_cast<T>(0.25);
-			result.y/*Co*/ = rgbColor.r - rgbColor.b;
-			result.z/*Cg*/ = rgbColor.g - (rgbColor.r + rgbColor.b) * static_cast<T>(0.5);
+			result.x/*Y */ = rgbColor.y * static_cast<T>(0.5) + (rgbColor.x + rgbColor.z) * static_cast<T>(0.25);
+			result.y/*Co*/ = rgbColor.x - rgbColor.z;
+			result.z/*Cg*/ = rgbColor.y - (rgbColor.x + rgbColor.z) * static_cast<T>(0.5);
 			return result;
 		}
 
@@ -50,9 +50,9 @@ namespace glm
 		{
 			vec<3, T, Q> result;
 			T tmp = YCoCgRColor.x - (YCoCgRColor.z * static_cast<T>(0.5));
-			result.g = YCoCgRColor.z + tmp;
-			result.b = tmp - (YCoCgRColor.y * static_cast<T>(0.5));
-			result.r = result.b + YCoCgRColor.y;
+			result.y = YCoCgRColor.z + tmp;
+			result.z = tmp - (YCoCgRColor.y * static_cast<T>(0.5));
+			result.x = result.z + YCoCgRColor.y;
 			return result;
 		}
 	};
@@ -66,9 +66,9 @@ namespace glm
 		)
 		{
 			vec<3, T, Q> result;
-			result.y/*Co*/ = rgbColor.r - rgbColor.b;
-			T tmp = rgbColor.b + (result.y >> 1);
-			result.z/*Cg*/ = rgbColor.g - tmp;
+			result.y/*Co*/ = rgbColor.x - rgbColor.z;
+			T tmp = rgbColor.z + (result.y >> 1);
+			result.z/*Cg*/ = rgbColor.y - tmp;
 			result.x/*Y */ = tmp + (result.z >> 1);
 			return result;
 		}
@@ -80,9 +80,9 @@ namespace glm
 		{
 			vec<3, T, Q> result;
 			T tmp = YCoCgRColor.x - (YCoCgRColor.z >> 1);
-			result.g = YCoCgRColor.z + tmp;
-			result.b = tmp - (YCoCgRColor.y >> 1);
-			result.r = result.b + YCoCgRColor.y;
+			result.y = YCoCgRColor.z + tmp;
+			result.z = tmp - (YCoCgRColor.y >> 1);
+			result.x = result.z + YCoCgRColor.y;
 			return result;
 		}
 	};
